@@ -5,7 +5,8 @@
    keys, values that were current at some instant since the open, no key skipped that was present and untouched throughout, early_abort reports
    a modification of the border under the cursor. *)
 EXTENDS YkIscanR
-CONSTANTS KeySet, MaxW, CurArgs
+CONSTANTS KeySet, MaxW, CurArgs,
+          BuildKeys    \* the keys the build phase may insert / remove (KeySet: every reachable tree over the universe)
 VARIABLES node, root, nextId, abs, phase, arg, cur, produced, seenv, touched, nw, dirty
 vars == <<node, root, nextId, abs, phase, arg, cur, produced, seenv, touched, nw, dirty>>
 ABSENT == -1
@@ -14,11 +15,11 @@ NoArg == [l |-> <<>>, le |-> "INF", r |-> <<>>, re |-> "INF", rtl |-> FALSE, ea 
 Init == /\ node = (1 :> NewBorder(TRUE, NULL)) /\ root = 1 /\ nextId = 2 /\ abs = Force([k \in KeySet |-> ABSENT])
         /\ phase = "build" /\ arg = NoArg /\ cur = NoCur /\ produced = <<>> /\ seenv = Force([k \in KeySet |-> {}]) /\ touched = {} /\ nw = 0 /\ dirty = FALSE
 U8 == <<phase, arg, cur, produced, seenv, touched, nw, dirty>>
-BPut(k) == /\ phase = "build"
+BPut(k) == /\ phase = "build" /\ k \in BuildKeys
            /\ LET r == PutRec(node, root, nextId, root, k, 1) c == Canon(r[1], r[2]) IN
               node' = c[1] /\ root' = c[2][r[2]] /\ nextId' = c[3] /\ abs' = [abs EXCEPT ![k] = 1]
            /\ UNCHANGED U8
-BRem(k) == /\ phase = "build"
+BRem(k) == /\ phase = "build" /\ k \in BuildKeys
            /\ LET r == RemoveRec(node, root, root, k) c == Canon(r[1], r[2]) IN
               node' = c[1] /\ root' = c[2][r[2]] /\ nextId' = c[3] /\ abs' = [abs EXCEPT ![k] = ABSENT]
            /\ UNCHANGED U8
@@ -79,6 +80,15 @@ Args6 == { A(<<>>, "INF", <<>>, "INF", FALSE, FALSE), A(<<>>, "INF", <<>>, "INF"
            A(<<1>>, "EXC", <<1,1,1,1,1,1,1,1,5,5>>, "INC", FALSE, FALSE), A(<<1>>, "INC", <<1,1,1,1,1,1,1,1,0>>, "INC", TRUE, FALSE),
            A(<<>>, "INF", <<>>, "INF", TRUE, TRUE) }
 K4s == { <<1>>, <<2>>, <<3>>, <<4>> }
+\* F20: the layer-0 border {"", 1, link} and the layer's root border {1, 2, 3} are both full; the 4th key of each splits it
+K7x == { <<>>, <<1>>, <<2>>, <<1,1,1,1,1,1,1,1,1>>, <<1,1,1,1,1,1,1,1,2>>, <<1,1,1,1,1,1,1,1,3>>, <<1,1,1,1,1,1,1,1,4>> }
+B7x == K7x \ { <<2>>, <<1,1,1,1,1,1,1,1,4>> }
+Args7x == { A(<<>>, "INF", <<>>, "INF", FALSE, FALSE), A(<<>>, "INF", <<>>, "INF", TRUE, FALSE), A(<<1>>, "INC", <<1,1,1,1,1,1,1,1,4>>, "INC", FALSE, FALSE) }
+\* mixed universe for random walks: two layers below one prefix (one of them with its own sub-layer), short keys around them
+K7m == { <<>>, <<1>>, <<1,1,1,1,1,1,1,1>>, <<1,1,1,1,1,1,1,1,0>>, <<1,1,1,1,1,1,1,1,5>>, <<1,1,1,1,1,1,1,1,7>>, <<1,1,1,1,1,1,1,1,9>>, <<1,1,1,1,1,1,1,1,9,9,9,9,9,9,9,9,1>>, <<2>> }
+Args7 == { A(<<>>, "INF", <<>>, "INF", FALSE, FALSE), A(<<>>, "INF", <<>>, "INF", TRUE, FALSE), A(<<>>, "INF", <<>>, "INF", FALSE, TRUE), A(<<>>, "INF", <<>>, "INF", TRUE, TRUE),
+           A(<<1>>, "EXC", <<1,1,1,1,1,1,1,1,9>>, "INC", FALSE, FALSE), A(<<1,1,1,1,1,1,1,1,5>>, "INC", <<2>>, "EXC", TRUE, FALSE),
+           A(<<1,1,1,1,1,1,1,1>>, "INC", <<1,1,1,1,1,1,1,1,9,9>>, "EXC", FALSE, TRUE) }
 A8 == <<1,1,1,1,1,1,1,1>>
 \* a next layer whose root border splits (4th key, F = 3) and whose interior root collapses again
 K5L == { A8 \o <<1>>, A8 \o <<2>>, A8 \o <<3>>, A8 \o <<4>>, <<9>> }
